@@ -9,7 +9,7 @@ from ..absval import Obj, Sym
 from ..model import AnchorMissing, Undecided, dotted, norm, walk_no_nested
 from ..report import Ctx
 from ..variants import Variant
-from .aggrun import GROUPS, KEYS, agg_class, call, evaluate_subject, header_row, new_session
+from .aggrun import GROUPS, KEYS, agg_class, agg_paths, call, evaluate_subject, header_row, new_session
 from .fsrun import FS, LockV, PathV
 
 INFO = {
@@ -22,9 +22,7 @@ INFO = {
 
 
 def _paths(agg: Obj):
-    o = agg.attrs.get("_Panoptica_Aggregator__output_file")
-    b = agg.attrs.get("_Panoptica_Aggregator__output_buffer_file")
-    return (o.s if isinstance(o, PathV) else o), (b.s if isinstance(b, PathV) else b)
+    return agg_paths(agg)
 
 
 def check_locks(ctx: Ctx):
